@@ -112,6 +112,7 @@ func HostileSweep(run *ev.Run, backend string) {
 						try(m.Op{K: k, Q: q})
 					}
 					try(m.Op{K: "forEach", Q: q, Stop: 1})
+					try(m.Op{K: "iterateDocs", Q: q})
 					if s.SortDef || len(s.Sort) == 2 || c == nil {
 						continue // writes on a subset of shapes: each needs the state restored
 					}
@@ -125,7 +126,7 @@ func HostileSweep(run *ev.Run, backend string) {
 			for _, o := range []m.Op{
 				{K: "createColl", Coll: coll}, {K: "hasColl", Coll: coll}, {K: "listColls"}, {K: "createIndex", Coll: coll, Field: "x"}, {K: "createIndex", Coll: coll, Field: ""},
 				{K: "hasIndex", Coll: coll, Field: "x"}, {K: "hasIndex", Coll: coll, Field: "nope"}, {K: "listIndexes", Coll: coll}, {K: "dropIndex", Coll: coll, Field: "x"}, {K: "dropIndex", Coll: coll, Field: "nope"},
-				{K: "insert", Coll: coll, Docs: []m.Doc{{"x": int64(1)}}}, {K: "insert", Coll: coll, Docs: []m.Doc{}}, {K: "insert", Coll: coll, Docs: []m.Doc{{"_id": []interface{}{}}}},
+				{K: "insert", Coll: coll, Docs: []m.Doc{{"x": int64(1)}}}, {K: "insertOne", Coll: coll, Docs: []m.Doc{{"x": int64(1)}}}, {K: "insertOne", Coll: coll, Docs: []m.Doc{{"_id": "bad"}}}, {K: "insert", Coll: coll, Docs: []m.Doc{}}, {K: "insert", Coll: coll, Docs: []m.Doc{{"_id": []interface{}{}}}},
 				{K: "insert", Coll: coll, Docs: []m.Doc{{"_id": ID(1)}, {"_id": ID(1)}}}, {K: "insert", Coll: coll, Docs: []m.Doc{{"_expiresAt": int64(5)}}},
 				{K: "save", Coll: coll, Docs: []m.Doc{{"x": int64(1)}}}, {K: "save", Coll: coll, Docs: []m.Doc{{"_id": ID(77)}}}, {K: "save", Coll: coll, Docs: []m.Doc{{"_id": int64(1)}}},
 				{K: "replaceById", Coll: coll, Id: ID(1), Docs: []m.Doc{{"_id": ID(1)}}}, {K: "replaceById", Coll: coll, Id: "", Docs: []m.Doc{{}}}, {K: "replaceById", Coll: coll, Id: ID(99), Docs: []m.Doc{{"_id": ID(99)}}},
@@ -241,6 +242,17 @@ func APISweep(run *ev.Run) {
 			c.And(c).Or(c.Not()).Satisfy(d)
 		}
 	})
+	try("Satisfy with literals of every Go numeric kind (not normalised by the caller)", func() {
+		d := document.NewDocument()
+		d.Set("x", 1)
+		d.Set("y", []interface{}{1, 2.5})
+		f := query.Field("x")
+		for _, lit := range []interface{}{int(1), int8(1), int16(1), int32(1), uint(1), uint8(1), uint16(1), uint32(1), float32(1), int64(1), uint64(1), float64(1)} {
+			for _, c := range []query.Criteria{f.Eq(lit), f.Neq(lit), f.Gt(lit), f.LtEq(lit), f.In(lit, "a"), query.Field("y").Contains(lit)} {
+				c.Satisfy(d)
+			}
+		}
+	})
 	try("index.Range edge cases", func() {
 		for _, r := range []*index.Range{{}, {Start: int64(1)}, {End: "a"}, {Start: "a", End: int64(1), StartIncluded: true, EndIncluded: true}, {Start: []interface{}{}, End: map[string]interface{}{}}} {
 			r.IsEmpty()
@@ -249,4 +261,27 @@ func APISweep(run *ev.Run) {
 			(&index.Range{}).Intersect(r)
 		}
 	})
+}
+
+// KindLiteralSweep: IterateDocs (exported, does not go through FindAll's normalisation) with criteria whose
+// literals are plain Go ints etc.
+func KindLiteralSweep(run *ev.Run, backend string) {
+	in := drv.MustOpen(backend)
+	defer in.Close()
+	drv.Exec(in, m.Op{K: "createColl", Coll: "a"})
+	drv.Exec(in, m.Op{K: "insert", Coll: "a", Docs: DefaultDataset()})
+	for _, kind := range drv.NumericKinds {
+		for _, op := range []string{"eq", "neq", "gt", "lte"} {
+			c := m.Leaf(op, "x", int64(1))
+			c.Kind = kind
+			o := m.Op{K: "iterateDocs", Q: &m.Q{Coll: "a", Crit: c}}
+			r := drv.Exec(in, o)
+			run.Add("evaluations", 1)
+			run.Distinct("calls", "iterateDocs/"+kind+"/"+op)
+			if r.Panic != nil {
+				run.Violation(fmt.Sprintf("panic|%s|iterateDocs|literal-%s", backend, kind), fmt.Sprintf("[%s] IterateDocs with criteria x %s %s(1) panicked: %v", backend, op, kind, r.Panic), map[string]interface{}{"engine": "hostile", "op": o})
+			}
+			in.V.ForgetLeaks()
+		}
+	}
 }
